@@ -174,3 +174,14 @@ PROPS['C10']['units'] = [cli.PlidN, cli.SrcN, cli.IdN, cli.BmcN] + PROPS['C10'][
 PROPS['C11']['units'] = [cli.DeleteAllN, cli.DeleteOneN, cli.CountN, cli.AllPelsN, cli.ListN, cli.PlidN, cli.SrcN, cli.IdN, cli.BmcN] + PROPS['C11']['units']
 PROPS['C06']['units'] = [cli.AllPelsN, cli.ListN, cli.CountN] + PROPS['C06']['units']
 _meta.apply(PROPS)
+
+# C09: the diagnostics of the header / section decoders themselves go to stderr only (real bodies, not contracts)
+PROPS['C09']['units'] = PROPS['C09']['units'] + [pelcore.GeneratePH, pelcore.ParsePELAny, _s.PCE]
+
+PROPS['C05']['units'] = PROPS['C05']['units'] + list(_h.C05_SECTION_UNITS)
+PROPS['C07']['units'] = PROPS['C07']['units'] + [cli.Main, _ch.H07]
+PROPS['C12']['units'] = [cli.WriteOutput, cli.PrintFileFaults, cli.Main, cli.PrintFile, _ch.H12]
+
+# C13: the --hex display goes through these modes: each hands printPELInHexFormat exactly the file's bytes
+PROPS['C13']['units'] = PROPS['C13']['units'] + [cli.AllPelsN, cli.ListN, cli.PlidN, cli.SrcN, cli.BmcN, cli.PrintFile]
+PROPS['C13']['units'] = PROPS['C13']['units'] + [_ch.H13]
